@@ -13,7 +13,7 @@ from .common import Vals, Stubs, z_clamp, z_slice, I, cls_name
 
 MANIFEST_ENTRY = {
     "category": "proof",
-    "text": "every index, slice, sub-sequence, find, insert and delete operation on strings and lists is proved equal to the sequence-model spec function for all sequences and all integer positions (z3 sequence theory, cvc5 for the extension lemma); a small exhaustive cross-check on the real interpreter guards the encoding",
+    "text": "every index, slice, sub-sequence, find, insert and delete operation on strings and lists is proved equal to the sequence-model spec function for all sequences and all integer positions (z3 sequence theory, cvc5 for the extension lemma); a small exhaustive cross-check on the real interpreter guards the encoding; find/find_last on lists of ints, decimals and strings use language equality across classes (<= 3 elements, symbolic-bounded)",
     "note": "CPython str.find/rfind/slicing/list.insert assumed to be the z3 sequence operations; list elements abstract; key callbacks abstract",
     "technique": "deductive verification: pyvc VCs from the real AST + z3/cvc5 (loop invariants for the copy and search loops)",
 }
